@@ -12,6 +12,7 @@ H3 eval_entry: decimal renderings of symbolic integers (vx) and CrossHair on sym
 
 from __future__ import annotations
 
+import copy
 import os
 import subprocess
 import sys
@@ -150,6 +151,9 @@ def tasks(tier, seed):
         for entry in ("set", "has", "validate_steps", "apply_overrides", "update_processor"):
             out.append({"fn": "badkeys", "kwargs": {"det": det, "entry": entry}, "label": f"badkey/{det}/{entry}"})
     out.append({"fn": "disabled_model", "kwargs": {}, "label": "disabled_model_argument"})
+    for k in _keys("ccd"):
+        if k.startswith("pipeline."):
+            out.append({"fn": "copies", "kwargs": {"key": k}, "label": f"copies/{k}"})
     out.append({"fn": "list_values", "kwargs": {}, "label": "set/list_values"})
     out.append({"fn": "list_pairs", "kwargs": {}, "label": "set/list_pairs"})
     out.append({"fn": "decimal_ints", "kwargs": {}, "label": "eval_entry/decimal_ints"})
@@ -217,6 +221,30 @@ def roundtrip(det, key):
     else:
         vx.prove(f"C08/set/reject_leaves_state/{lab}", vx.all_of([_same(after[k], before[k]) for k in keys]))
         vx.prove(f"C08/set/valid_assignment_accepted/{lab}", False, error=repr(raised)[:200])
+
+
+def copies(key):
+    """Keys applied through Processor.replace (what every sweep and every calibration candidate does): the key changes that
+    setting in the new processor only - the base processor and sibling copies keep theirs, for enabled and disabled models alike."""
+    with Patch() as p:
+        _patch(p)
+        proc, leaves = _processor("ccd")
+        keys = _keys("ccd")
+        before = _snapshot(proc, keys)
+        if key.endswith(".enabled") or key.endswith(".flag"):
+            v, w = vx.boolean("v"), vx.boolean("w")
+        elif key.endswith(".opt"):
+            v, w = [vx.real("v_0"), vx.real("v_1")], [vx.real("w_0"), vx.real("w_1")]
+        elif key.endswith(".n"):
+            v, w = vx.integer("v"), vx.integer("w")
+        else:
+            v, w = vx.real("v"), vx.real("w")
+        q = proc.replace({key: v})
+        r = proc.replace({key: w})
+        base, sq, sr = _snapshot(proc, keys), _snapshot(q, keys), _snapshot(r, keys)
+    vx.prove(f"C08/copies/base_unchanged/{key}", vx.all_of([_same(base[k], before[k]) for k in keys]))
+    vx.prove(f"C08/copies/first_copy_keeps_its_value/{key}", vx.all_of([_same(sq[k], v if k == key else before[k]) for k in keys]))
+    vx.prove(f"C08/copies/second_copy_gets_its_value/{key}", vx.all_of([_same(sr[k], w if k == key else before[k]) for k in keys]))
 
 
 # ---- bad keys ------------------------------------------------------------------------------------
@@ -594,6 +622,26 @@ def replay(oid, kwargs, model, data):
             except Exception:  # noqa: BLE001
                 pass
         return bool(out), {"accepted_bad_keys": out}
+    if fn == "copies":
+        key = kwargs["key"]
+        proc, _ = _processor("ccd", sym=False)
+        keys = [k for k in _keys("ccd") if k.startswith("pipeline.")]
+        if key.endswith(".enabled") or key.endswith(".flag"):
+            v, w = (not proc.get(key)), bool(proc.get(key))
+        elif key.endswith(".opt"):
+            v, w = [9.5, 8.5], [7.5, 6.5]
+        elif key.endswith(".n"):
+            v, w = 91, 92
+        else:
+            v, w = 0.91, 0.92
+        before = {k: copy.deepcopy(proc.get(k)) for k in keys}
+        q = proc.replace({key: v})
+        r = proc.replace({key: w})
+        got = {"base": {k: proc.get(k) for k in keys}, "first_copy": {k: q.get(k) for k in keys}, "second_copy": {k: r.get(k) for k in keys}}
+        want = {"base": before, "first_copy": {**before, key: v}, "second_copy": {**before, key: w}}
+        diff = {who: {k: [repr(got[who][k]), repr(want[who][k])] for k in keys if got[who][k] != want[who][k]} for who in got}
+        diff = {who: d for who, d in diff.items() if d}
+        return bool(diff), {"differences [got, expected]": diff}
     if fn == "list_pairs":
         from pyxel.pipelines import DetectionPipeline, ModelFunction, Processor
 
